@@ -30,6 +30,7 @@ func c13Scenarios() []srvScenarioDef {
 		{Name: "S14 new server || ban of that server || server list", Init: stdInit, Threads: [][]string{{"sauth:S1:0:1:G1"}, {"sauth:S1:1:1:G1"}, {"servers"}}},
 		{Name: "S15 rotation || rotation || report", Init: append(append([]string{}, stdInit...), "now:2100"), Threads: [][]string{{"rot"}, {"rot"}, {"rep:1:kA:2100:500"}}},
 		{Name: "S16 live statistics || new device || its first report", Init: stdInit, Threads: [][]string{{"get:0"}, {"auth:3:kC:1000:G1"}, {"rep:3:kC:100:500"}}},
+		{Name: "S17 two reports for one slot || ban of another device, in a window that has rotated", Init: append(append([]string{}, stdInit...), "rot", "now:2116"), Threads: [][]string{{"rep:1:kA:2116:500"}, {"rep:1:kA:2116:600"}, {"auth:2:kX:1000:G1"}}},
 		{Name: "S10 rotation || rotation-time statistics || report in second week", Init: append(append([]string{}, stdInit...), "now:2100"), Threads: [][]string{{"rot"}, {"get:2016"}, {"rep:2:kB:2100:700"}}},
 	}
 }
